@@ -376,16 +376,22 @@ func genReverseList(r *core.Rand) []cty.Value { return args(seqOrSet(r, 8)) }
 
 func genSetProduct(r *core.Rand) []cty.Value {
 	n := 2 + r.Intn(2)
+	maxLen := 2
+	if r.Chance(1, 4) {
+		// longer arguments and a fourth one: products of lengths up to 4^4
+		maxLen = 4
+		n += r.Intn(2)
+	}
 	out := make([]cty.Value, n)
 	anySet := r.Chance(1, 3)
 	for i := range out {
 		ety := primTy(r)
-		o := gen.ValueOpts{SmallNums: true, MaxLen: 2, NoTopNull: true}
+		o := gen.ValueOpts{SmallNums: true, MaxLen: maxLen, NoTopNull: true}
 		switch {
 		case anySet && r.Bool():
-			out[i] = setOf(r, ety, 2)
+			out[i] = setOf(r, ety, maxLen)
 		case r.Chance(1, 4):
-			k := r.Intn(3)
+			k := r.Intn(maxLen + 1)
 			ts := make([]cty.Type, k)
 			for j := range ts {
 				ts[j] = ety
